@@ -602,10 +602,19 @@ type histOpts struct {
 
 var safeAlphabet = "abcdefghijklmnopqrstuvwxyzABCDEFGHIJKLMNOPQRSTUVWXYZ123456789 _-+*=.,:()[]<>!?#%&/"
 
+// wideRunes: text is UTF-8; some of these have a low byte that means something in ASCII
+// (U+010A -> 0x0A newline, U+013B -> ';', U+0124 -> '$', U+0130 -> '0', U+2020 -> ' ')
+var wideRunes = []rune("éüñ→日本語ĊĻĤİ†Ωж𝄞")
+
 func genText(g *vf.Rng, n int) string {
-	b := make([]byte, n)
-	for i := range b {
-		b[i] = safeAlphabet[g.Intn(len(safeAlphabet))]
+	b := make([]byte, 0, n+8)
+	wide := g.Intn(4) == 0
+	for len(b) < n {
+		if wide && g.Intn(5) == 0 {
+			b = append(b, string(wideRunes[g.Intn(len(wideRunes))])...)
+			continue
+		}
+		b = append(b, safeAlphabet[g.Intn(len(safeAlphabet))])
 	}
 	return string(b)
 }
@@ -671,6 +680,8 @@ func (h *histGen) newLabel() string {
 		n = fmt.Sprintf("lda.%d@%s", h.nlabel, strings.Repeat("long_", h.g.Intn(60)))
 	case 4:
 		n = fmt.Sprintf(".%d", h.nlabel)
+	case 6:
+		n = fmt.Sprintf("boucle_%cé%d", wideRunes[h.g.Intn(len(wideRunes))], h.nlabel) // UTF-8 names
 	case 5:
 		// names other assemblers give a meaning to: anonymous labels, local labels, current-address symbols
 		n = []string{"+", "-", "++", "--", "+-", "*", "@", "@@", "$", ".", "1f", "1b", "_"}[h.g.Intn(13)]
